@@ -23,7 +23,8 @@ MINIMUM = {'R10.1': 1, 'R10.2': 4, 'R10.3': 2, 'R10.4': 2}
 # (evaluated by the sibling module on the same graphs, reported under this property)
 ALSO = {'C19': {'R19.3': ('every *.trashinfo name in info/ is an entry and gets purged (the name '
                    'filter is the suffix test)', 'empty:')},
- 'C03': {'R03.3': 'the first DeletionDate line decides, also when it is invalid'},
+ 'C03': {'R03.4': ('the whole .trashinfo is read: a cut file loses its DeletionDate line and the entry is kept for ever', 'empty reads'),
+         'R03.3': 'the first DeletionDate line decides, also when it is invalid'},
  'C09': {'R09.5': 'every trash directory of a volume is purged ($topdir/.Trash-$uid next to '
                   '.Trash/$uid)'}}
 
